@@ -141,6 +141,24 @@ CLAIMED = {
          'certified by the Galerkin residual against independently computed eigenvectors.'),
    technique='Lean 4 proof of Kronecker/array-algebra index identities + dense-definition differential check with per-axis distinct parameters',
    design='4.C20'),
+ 'C10': dict(
+   text=('Lean 4 theorems (PbVerif.Props.C10): for EVERY banded_solver value 1..4, pentapy importable or not, every size, difference '
+         'order and weights, the array each Whittaker method (asls family, iasls, aspls, drpls) hands to the solver it is routed to '
+         'denotes, under THAT solver\'s storage convention (LAPACK lower for solveh_banded, LAPACK full for solve_banded, pentapy '
+         'row-wise), the same documented matrix (backend_independent); routing: pentapy iff importable and solver < 3 and diff_order = 2 '
+         '(variant = solver), solveh_banded iff the method allows lower storage and solver < 4 and not pentapy; layout flags of a fresh '
+         'system; row-wise storage = reversed transpose of LAPACK; compiled scatter loop and explicit product assemble the same B\'WB. '
+         'Correspondence: every public method plus parameter sweeps (Whittaker diff_order 1..3, spline degrees, beads banded vs sparse '
+         'with filter_type / cost_function / eps_0 != eps_1, loess, rolling std, Bezier, interpolation kernels, 2-D, utils) executed in '
+         '16 configurations in worker processes where numba / pentapy are genuinely unimportable; all 16 baselines must agree within a '
+         'conditioning-calibrated tolerance (200 x the change under a 1e-12 relative perturbation of data and lam, floor 1e-11) and no '
+         'configuration may raise where another returns; recorded routes / layouts vs the Lean dispatch model; pentapy storage '
+         'convention and solve vs the Lean denotation.'),
+   note=('Trusted: Lean kernel; axioms propext, Classical.choice, Quot.sound; harness. Numerical agreement of the solvers and of '
+         'compiled vs uncompiled kernels is decided on explored cases only (floating point), with at most 3 reweighting iterations; '
+         'the proof covers layout selection and routing (the logic), not LAPACK / pentapy / numba themselves.'),
+   technique='Lean 4 proof of solver routing and per-route band denotation (all 8 solver x pentapy configurations) + 16-configuration differential execution in import-blocked worker processes',
+   design='4.C10'),
  'C08': dict(
    text=('Lean 4 theorems (PbVerif.Props.C08) in exact rationals: coefficients converted by _poly_transform_matrix/_convert_coef evaluate '
          'to the fitted polynomial for EVERY domain, order and x (binomial theorem), incl. the special-cased offset == 0 branch; the 2-D '
